@@ -43,9 +43,15 @@ func (e *StorageEngine) Evacuate(ctx context.Context, shardIDs []common.ID, igno
 			return 0, errShardNotFound
 		}
 
-		if !sh.GetMode().ReadOnly() {
+		m := sh.GetMode()
+		if !m.ReadOnly() {
 			e.mtx.RUnlock()
 			return 0, shard.ErrMustBeReadOnly
+		}
+		if m.NoMetabase() {
+			// objects are listed via the metabase, see also #1731
+			e.mtx.RUnlock()
+			return 0, fmt.Errorf("shard %s: %w", sidList[i], shard.ErrDegradedMode)
 		}
 	}
 
@@ -83,7 +89,7 @@ mainLoop:
 			//  because ListWithCursor works only with the metabase.
 			lst, cursor, err := sh.ListWithCursor(defaultEvacuateBatchSize, c)
 			if err != nil {
-				if errors.Is(err, meta.ErrEndOfListing) || errors.Is(err, shard.ErrDegradedMode) {
+				if errors.Is(err, meta.ErrEndOfListing) {
 					continue mainLoop
 				}
 				return count, err
